@@ -24,4 +24,12 @@ func init() {
 	calls["evalTokensDate"] = func(a []string, n []int) interface{} {
 		return message.VerifEvalTokensDate(n[0], int64(n[1]), a[0], n[2], n[3], n[4], a[1:])
 	}
+	// zoned: n = [y, m, d, hh, mi, offsetSeconds], a = [dateStr, BEFORE|ON|SINCE]
+	calls["matchesDateZone"] = func(a []string, n []int) interface{} {
+		return message.VerifMatchesDateZone(n[0], n[1], n[2], n[3], n[4], n[5], a[0], a[1])
+	}
+	// n = [seq, uid, y, m, d, hh, mi, offsetSeconds], a = [flags, criteria]
+	calls["evalCriteriaZone"] = func(a []string, n []int) interface{} {
+		return message.VerifEvalTokensZone(n[0], int64(n[1]), a[0], n[2], n[3], n[4], n[5], n[6], n[7], message.VerifParseSearchTokens(a[1]))
+	}
 }
